@@ -425,9 +425,13 @@ class ProcessSim:
             out.fork(task)
             if self.proc_rng_init:
                 seed = ctx.tape.int(0, 2 ** 31 - 1)
-                np.random.seed(seed)
-                m["jitutils"].seed_numba(seed)
                 ctx.counters.inc("proc_rng_init")
+            else:
+                # numba seeds a new thread's generator from OS entropy: pin it, or a tree that
+                # forgets to reseed would make this run unrepeatable instead of merely wrong
+                seed = 20261004
+            np.random.seed(seed)
+            m["jitutils"].seed_numba(seed)
 
         s.proc_start_hook = start_hook
         s.proc_exit_hook = out.exit
